@@ -50,7 +50,7 @@ def pOp : P Op := do
 
 def fmtErr : Err → String
   | .key => "err key" | .value => "err value" | .index => "err index"
-  | .empty => "err empty" | .labelling => "err labelling"
+  | .empty => "err empty" | .labelling => "err labelling" | .type => "err type"
 
 def fmtBits (m : List Bool) : String := String.ofList (m.map fun b => if b then '1' else '0')
 def fmtEdges (es : List (Nat × Nat)) : String :=
